@@ -234,8 +234,37 @@ pub fn run_pass(prop: &str, tier: Tier, seed: u64, pass: &str, nshards: usize, o
     }
     let mut merged = Shard::default();
     let mut deaths = vec![];
-    for (i, mut c) in kids {
-        let st = c.wait().expect("wait worker");
+    // A worker that stays on one case for this long is taken to hang in it (no case takes a
+    // hundredth of that on an idle machine): it is killed and reported like a worker that died.
+    let hang_s: u64 = std::env::var("VH_HANG_S").ok().and_then(|s| s.parse().ok()).unwrap_or(1500);
+    let t_spawn = std::time::SystemTime::now();
+    let mut running: Vec<(usize, std::process::Child, Option<std::process::ExitStatus>, bool)> = kids.into_iter().map(|(i, c)| (i, c, None, false)).collect();
+    loop {
+        let mut alive = 0;
+        for (i, c, st, hung) in running.iter_mut() {
+            if st.is_some() {
+                continue;
+            }
+            match c.try_wait().expect("wait worker") {
+                Some(s) => *st = Some(s),
+                None => {
+                    alive += 1;
+                    let job = Job { prop: prop.into(), tier, seed, shard: *i, nshards, outdir: outdir.to_path_buf(), pass: pass.into(), deadline_s };
+                    let last = std::fs::metadata(job.progress_path()).and_then(|m| m.modified()).unwrap_or(t_spawn).max(t_spawn);
+                    if last.elapsed().map_or(false, |d| d.as_secs() > hang_s) {
+                        *hung = true;
+                        let _ = c.kill();
+                    }
+                }
+            }
+        }
+        if alive == 0 {
+            break;
+        }
+        std::thread::sleep(std::time::Duration::from_millis(100));
+    }
+    for (i, _c, st, hung) in running {
+        let st = st.unwrap();
         let job = Job { prop: prop.into(), tier, seed, shard: i, nshards, outdir: outdir.to_path_buf(), pass: pass.into(), deadline_s };
         let res = Shard::load(&job.result_path());
         match (st.success(), res) {
@@ -245,7 +274,8 @@ pub fn run_pass(prop: &str, tier: Tier, seed: u64, pass: &str, nshards: usize, o
                     merged.merge(s);
                 }
                 let case = std::fs::read(job.progress_path()).ok().and_then(|b| serde_json::from_slice(&b).ok()).unwrap_or(Value::Null);
-                deaths.push((i, format!("{:?}", st), case));
+                let how = if hung { format!("killed: no progress for {} s, the call under test does not return", hang_s) } else { format!("{:?}", st) };
+                deaths.push((i, how, case));
             }
         }
     }
